@@ -38,6 +38,10 @@ func Abs(ctx *expr.Context, input system.Collection, args ...expr.Expression) (s
 		}
 		// Absolution number
 		res := math.Abs(float64(number))
+		// -(MinInt32) does not fit an Integer
+		if res > math.MaxInt32 {
+			return system.Collection{}, nil
+		}
 		return system.Collection{system.Integer(res)}, nil
 	case system.Decimal:
 		// Input type conversion to float64
@@ -86,6 +90,10 @@ func Ceiling(ctx *expr.Context, input system.Collection, args ...expr.Expression
 	}
 	// Ceiling number
 	result := math.Ceil(number)
+	// the result does not fit an Integer: no value to return
+	if result < math.MinInt32 || result > math.MaxInt32 {
+		return system.Collection{}, nil
+	}
 	return system.Collection{system.Integer(result)}, nil
 }
 
@@ -133,6 +141,10 @@ func Floor(ctx *expr.Context, input system.Collection, args ...expr.Expression) 
 	}
 	// Flooring number
 	result := math.Floor(number)
+	// the result does not fit an Integer: no value to return
+	if result < math.MinInt32 || result > math.MaxInt32 {
+		return system.Collection{}, nil
+	}
 	return system.Collection{system.Integer(result)}, nil
 }
 
@@ -351,6 +363,10 @@ func Truncate(ctx *expr.Context, input system.Collection, args ...expr.Expressio
 	}
 	// Ceiling number
 	result := math.Trunc(number)
+	// the result does not fit an Integer: no value to return
+	if result < math.MinInt32 || result > math.MaxInt32 {
+		return system.Collection{}, nil
+	}
 	return system.Collection{system.Integer(result)}, nil
 }
 
